@@ -10,6 +10,8 @@ KERNEL = os.path.join(chk.VERIF, 'kernels', 'k_c19.py')
 
 FUNCTIONS = ['ProgramData.load_commandline_flags (argv loop, option dispatch, returned pair, final _flags/_options/_dump/dry_run)']
 
+ALPHA4 = '-=.,+ _0134Oofdthnasx'
+
 QUICK = {
     'C19/argv/option_token': [dict(env={'XH_N': 3}, parts=4, timeout=600, region_env={'XH_N': 4},
                                    label='one option token <=3 chars (code points < 128) before/after the file name')],
@@ -21,12 +23,15 @@ QUICK = {
                                     label='same 29 options, file name first / between / last')],
 }
 THOROUGH = {
-    'C19/argv/option_token': [dict(env={'XH_N': 4}, parts=64, timeout=900, region_env={'XH_N': 4},
-                                   label='one option token <=4 chars (code points < 128) before/after the file name')],
+    'C19/argv/option_token': [dict(env={'XH_N': 3}, parts=4, timeout=600, region_env={'XH_N': 4},
+                                   label='one option token <=3 chars (code points < 128) before/after the file name'),
+                              dict(env={'XH_N': 4, 'XH_ALPHA': ALPHA4}, parts=16, timeout=900,
+                                   label='one option token <=4 chars over the %d characters %r before/after the file name' % (len(ALPHA4), ALPHA4))],
+    # (<=4 chars over all code points < 128 was measured at > 24 000 CPU s: the real code calls .upper()/int()/Enum() on the text)
     'C19/argv/option_value': [dict(env={'XH_N': 1}, timeout=300, region_env={'XH_N': 3},
                                    label='--<long option> <value <=1 char (code points < 128)> file; long option: symbolic index into 9 names')],
-    'C19/argv/option_order': [dict(env={}, parts=64, timeout=600, region_env={'XH_RELATED': 2},
-                                   label='two different options out of 84 (all -f/-fno- flags, levels, -o/--output, -t/--dry-run, -d/--dump, --dump-prefix, --flag, generation options), file position 0..2')],
+    'C19/argv/option_order': [dict(env={'XH_RELATED': 1}, parts=32, timeout=600, region_env={'XH_RELATED': 2},
+                                   label='two different options out of 39 (levels, -o/--output, -t/--dry-run, -d/--dump, --dump-prefix, --flag, generation options, -f/-fno- of the 11 flags related by implies/exclusive), file position 0..2')],
     'C19/argv/file_position': [dict(env={}, parts=32, timeout=600, region_env={'XH_RELATED': 2},
                                     label='same 84 options, file name first / between / last')],
 }
